@@ -913,7 +913,7 @@ class Translator:
                 name = st.target.id
                 if name == en:
                     vt, _ = self.expr(st.value, lcx, 'Q')
-                    new_e = f'(Qplus {en} {vt})'
+                    new_e = f'(Qred (Qplus {en} {vt}))'   # Qred: value-preserving (Qred_correct); keeps the accumulator's representation small
                 elif name == tn:
                     vt, _ = self.expr(st.value, lcx, 'Z')
                     new_t = f'(Z.add {tn} {vt})'
